@@ -3,7 +3,7 @@ package c12
 // C12 — oracle penalties and rewards follow actual voting behaviour.
 //
 // A case is a HISTORY on the x/oracle keeper fixture (staking UnbondingTime 1 s, 5 s of block time per
-// step): fixed oracle parameters and whitelist, 2-5 initial validators, then 8-24 steps of
+// step): generated oracle parameters (edited in the middle of about half of the histories) and a fixed whitelist, 2-5 initial validators, then 8-24 steps of
 //
 //	end     set the Votes store and run the real oracle.EndBlocker at the next vote-period end /
 //	        slash-window end / next block
@@ -60,13 +60,14 @@ type Vote struct {
 	T     []Tuple `json:"t"`
 }
 type Op struct {
-	K     string   `json:"k"`               // end | alloc | undel | deleg | jail | unjail | create | send
+	K     string   `json:"k"`               // end | alloc | undel | deleg | jail | unjail | create | send | params
 	Jump  string   `json:"jump,omitempty"`  // end: period | window | next
 	Votes []Vote   `json:"votes,omitempty"` // end
 	Coins []string `json:"coins,omitempty"` // alloc: [unibi, uusd]
 	N     uint64   `json:"n,omitempty"`     // alloc: vote periods
 	V     int      `json:"v"`               // validator index
 	Amt   string   `json:"amt,omitempty"`   // undel ("all" or tokens) / deleg / create tokens
+	P     *Params  `json:"p,omitempty"`     // params: the oracle parameters from this step on (vp / win are never edited)
 }
 type Input struct {
 	Params Params   `json:"params"`
@@ -436,6 +437,25 @@ func (w *world) step(op Op) (StepObs, error) {
 		}
 	case "send":
 		staking.EndBlocker(w.ctx, &sk)
+	case "params":
+		// the parameters are edited in the middle of the history (the keeper call behind MsgEditOracleParams);
+		// VotePeriod / SlashWindow / Whitelist stay
+		if op.P == nil {
+			return o, fmt.Errorf("params op without parameters")
+		}
+		p, err := k.Params.Get(w.ctx)
+		if err != nil {
+			return o, err
+		}
+		p.VoteThreshold = decOfRaw(op.P.Thr)
+		p.MinVoters = op.P.MinV
+		p.RewardBand = decOfRaw(op.P.Band)
+		p.SlashFraction = decOfRaw(op.P.SF)
+		p.MinValidPerWindow = decOfRaw(op.P.MV)
+		if err := p.Validate(); err != nil {
+			return o, fmt.Errorf("params rejected: %w", err)
+		}
+		k.UpdateParams(w.ctx, p)
 	default:
 		return o, fmt.Errorf("unknown op %q", op.K)
 	}
@@ -567,6 +587,36 @@ func genVotes(r *Rng, in *Input, nvals int, sloppy []int, band int64) []Vote {
 	return out
 }
 
+// genEdit: the parameters after an edit in the middle of a history: one to three of RewardBand / SlashFraction /
+// MinValidPerWindow change, half of the time to ZERO (accepted by Params.Validate: no band but the standard
+// deviation, offenders jailed without a burn, nobody below the minimum), sometimes the threshold / MinVoters too.
+func genEdit(r *Rng, cur Params) (Params, int64) {
+	p := cur
+	pick := func(zero string, others []string) string {
+		if r.Chance(1, 2) {
+			return zero
+		}
+		return others[r.Intn(len(others))]
+	}
+	n := r.Range(1, 3)
+	for i := 0; i < n; i++ {
+		switch r.Pick(30, 30, 30, 5, 5) {
+		case 0:
+			p.Band = pick("0", []string{"20000000000000000", "500000000000000000", "1000000000000000000"})
+		case 1:
+			p.SF = pick("0", []string{"5000000000000000", "100000000000000000", "1000000000000000000"})
+		case 2:
+			p.MV = pick("0", []string{"690000000000000000", "500000000000000000", "1000000000000000000"})
+		case 3:
+			p.Thr = []string{"340000000000000000", "500000000000000000", "666666666666666667"}[r.Intn(3)]
+		default:
+			p.MinV = uint64(r.Range(1, 3))
+		}
+	}
+	band := new(big.Int).Quo(bigOf(p.Band), big.NewInt(1000000000000000)).Int64()
+	return p, band
+}
+
 func genCase(r *Rng) Input {
 	var in Input
 	vp := []uint64{1, 1, 2, 3}[r.Intn(4)]
@@ -600,7 +650,17 @@ func genCase(r *Rng) Input {
 	}
 	nvals := n
 	nops := r.Range(8, 24)
+	// about half of the histories have their parameters edited on the way (1-4 edits, mostly between two period
+	// ends of a running slash window: the counters collected under the old parameters are judged under the new)
+	edits := r.Chance(1, 2)
+	cur := in.Params
 	for i := 0; i < nops; i++ {
+		if edits && i > 0 && r.Chance(1, 6) {
+			var np Params
+			np, bandPermille = genEdit(r, cur)
+			cur = np
+			in.Ops = append(in.Ops, Op{K: "params", P: &np})
+		}
 		switch r.Pick(48, 10, 4, 12, 5, 3, 2, 3, 2, 8) {
 		case 0:
 			in.Ops = append(in.Ops, Op{K: "end", Jump: "period", Votes: genVotes(r, &in, nvals, sloppy, bandPermille)})
@@ -733,11 +793,43 @@ func openers() []Input {
 		{K: "end", Jump: "period", Votes: []Vote{good(2)}},
 		{K: "end", Jump: "period", Votes: []Vote{good(0), good(1)}},
 	}})
+	// parameter edits in the middle of a slash window (window of 4 periods), to values of ZERO that Validate accepts:
+	// (a) MinValidPerWindow 0 after three misses: valid rate 1/4 is not below 0 — nobody is slashed;
+	pw := base
+	pw.Win = 4
+	edit := func(f func(p *Params)) Op { p := pw; f(&p); return Op{K: "params", P: &p} }
+	out = append(out, Input{Params: pw, WL: []int{0}, Vals: []string{ten, ten, "5000000"}, Ops: []Op{
+		{K: "end", Jump: "period", Votes: []Vote{good(0), good(1), bad(2)}},
+		{K: "end", Jump: "period", Votes: []Vote{good(0), good(1), bad(2)}},
+		edit(func(p *Params) { p.MV = "0" }),
+		{K: "end", Jump: "period", Votes: []Vote{good(0), good(1), bad(2)}},
+		{K: "end", Jump: "window", Votes: []Vote{good(0), good(1), good(2)}},
+	}})
+	// (b) SlashFraction 0: the offender is jailed and keeps all its tokens;
+	out = append(out, Input{Params: pw, WL: []int{0}, Vals: []string{ten, ten, "5000000"}, Ops: []Op{
+		{K: "end", Jump: "period", Votes: []Vote{good(0), good(1), bad(2)}},
+		edit(func(p *Params) { p.SF = "0" }),
+		{K: "end", Jump: "period", Votes: []Vote{good(0), good(1), bad(2)}},
+		{K: "end", Jump: "period", Votes: []Vote{good(0), good(1), bad(2)}},
+		{K: "end", Jump: "window", Votes: []Vote{good(0), good(1), good(2)}},
+	}})
+	// (c) RewardBand 0: the band is the standard deviation alone — 100.5 against 100, 100 (σ ≈ 0.29) is a miss and
+	// earns nothing, although it lies within 1 % of the median; then the band is edited back and the same vote wins
+	near := func(v int) Vote { return Vote{v, []Tuple{{0, "100500000000000000000"}}} }
+	out = append(out, Input{Params: pw, WL: []int{0}, Vals: []string{ten, ten, ten}, Ops: []Op{
+		{K: "alloc", Coins: []string{"90", "0"}, N: 3},
+		{K: "end", Jump: "period", Votes: []Vote{good(0), good(1), near(2)}},
+		edit(func(p *Params) { p.Band = "0" }),
+		{K: "end", Jump: "period", Votes: []Vote{good(0), good(1), near(2)}},
+		edit(func(p *Params) {}),
+		{K: "end", Jump: "period", Votes: []Vote{good(0), good(1), near(2)}},
+		{K: "end", Jump: "window", Votes: []Vote{good(0), good(1), good(2)}},
+	}})
 	return out
 }
 
 func TestC12(t *testing.T) {
-	cfg := LoadCfg(t, 90, 2500)
+	cfg := LoadCfg(t, 170, 2500)
 	em := NewEmitter(t, cfg.Out)
 	defer em.Close()
 	emit := func(in Input) {
